@@ -407,7 +407,22 @@ std::string applyEdit(std::string doc, Src &src, Case &c)
             size_t o = src.pick(occ);
             size_t p = doc.find('>', o);
             size_t e = p == std::string::npos ? p : doc.find("</cn>", p);
-            if (e != std::string::npos && doc[p - 1] != '/') {
+            if (e != std::string::npos && doc[p - 1] != '/' && src.flip(50)) {
+                // valid by construction: the number becomes the base of a power / the radicand of a root / the argument of a
+                // logarithm whose exponent / degree / base is an e-notation number at or beyond the range of a double
+                static const std::vector<std::string> huge = {"1<sep/>999", "1<sep/>-999", "9.9<sep/>308", "1<sep/>309", "-1<sep/>400", "1<sep/>0", "0<sep/>0", "5<sep/>-324"};
+                std::string number = doc.substr(o, e + 5 - o);
+                std::string q = "<cn cellml:units=\"dimensionless\" type=\"e-notation\">" + src.pick(huge) + "</cn>";
+                std::string repl;
+                switch (src.below(4)) {
+                case 0: repl = "<apply><power/>" + number + q + "</apply>"; break;
+                case 1: repl = "<apply><root/><degree>" + q + "</degree>" + number + "</apply>"; break;
+                case 2: repl = "<apply><log/><logbase>" + q + "</logbase>" + number + "</apply>"; break;
+                default: repl = "<apply><power/>" + q + number + "</apply>"; break;
+                }
+                doc.replace(o, e + 5 - o, repl);
+                c.cls("edit:cn-e-notation-in-power");
+            } else if (e != std::string::npos && doc[p - 1] != '/') {
                 std::string body = src.pick(parts) + "<sep/>" + src.pick(parts);
                 if (src.flip(15)) {
                     body += "<sep/>" + src.pick(parts);
@@ -432,6 +447,9 @@ std::string applyEdit(std::string doc, Src &src, Case &c)
             if (q != std::string::npos) {
                 std::string f = src.pick(fill), run;
                 size_t n = src.pick(lengths);
+                if (doc.size() + n > 65000) { // stay below the 64 KiB of the statement (a longer document is cut, i.e. not well-formed)
+                    n = doc.size() < 64000 ? 65000 - doc.size() : 0;
+                }
                 while (run.size() < n) {
                     run += f;
                 }
